@@ -15,5 +15,5 @@ SPEC = dict(
 
 MANIFEST = dict(
     text="Bounded model checking (Kani/CBMC, SAT) of the library's own text/encoding.rs: winansi_encode_char / winansi_decode_char / macroman_encode_char and TextEncoding::{encode_strict,encode,decode} on one-character inputs against the Annex D tables, with the quantifier complete -- every u8 and every Unicode scalar value is a symbolic input. Standard/PDFDoc (UTF-8 pass-through in the library) are listed known findings; every input outside the listed predicates is still decided.",
-    note="Trusted: Kani's MIR->GOTO translation, CBMC+CaDiCaL, the Annex D transcription (engine/spec/gen_annex_d.py, cross-checked against Python cp1252/mac_roman; contested codes 0xA0/0xAD WinAnsi, 0xCA/0xDB and the 15 symbol codes of MacRoman accept either reading). Outside: multi-character strings, parser/encoding.rs. Quick tier: table functions over the full domain + string wrappers for UTF-8 width 1 (1-2 for WinAnsi); thorough adds the remaining widths.",
+    note="Trusted: Kani's MIR->GOTO translation, CBMC+CaDiCaL, the Annex D transcription (engine/spec/gen_annex_d.py, cross-checked against Python cp1252/mac_roman; contested codes 0xA0/0xAD WinAnsi, 0xCA/0xDB and the 15 symbol codes of MacRoman accept either reading). Outside: multi-character strings, parser/encoding.rs. Quick tier: table functions over the full domain + string wrappers for UTF-8 width 1 (1-2 for WinAnsi); thorough adds WinAnsi widths 3-4 (MacRoman / Standard / PDFDoc wrappers beyond width 1 ran out of memory and are not claimed; their table functions are decided over all characters).",
 )
